@@ -518,7 +518,9 @@ fn comment_fence(b: &mut B, rng: &mut Rng, lead: &dyn Fn(&mut B)) {
     let ctx = b.ctx;
     b.ctx = "comment-fence";
     lead(b);
-    b.zone(*rng.pick(&["```", "```rust", "```text"]), ZK::NonProse, "fence-open");
+    // CommonMark: a fence is three OR MORE backticks (or tildes); the closer is at least as long
+    let (open, close) = *rng.pick(&[("```", "```"), ("```rust", "```"), ("```text", "```"), ("````", "````"), ("`````rust", "`````"), ("````text", "``````"), ("```", "````")]);
+    b.zone(open, ZK::NonProse, "fence-open");
     let n = rng.range(1, 2);
     for _ in 0..n {
         b.nl();
@@ -528,7 +530,7 @@ fn comment_fence(b: &mut B, rng: &mut Rng, lead: &dyn Fn(&mut B)) {
     }
     b.nl();
     lead(b);
-    b.zone("```", ZK::NonProse, "fence-close");
+    b.zone(close, ZK::NonProse, "fence-close");
     b.ctx = ctx;
     b.feat("comment-fence");
 }
